@@ -4003,7 +4003,8 @@ class SubProofMacro(Macro):
         goal_neg_tms = args[:-1]
         goal_concl = args[-1]
         if all(g == Not(p) for g, p in zip(goal_neg_tms, input_prop)) and goal_concl == concl:
-            return Thm(Or(*args))
+            remain_hyps = tuple(hyp for pt in prevs for hyp in pt.hyps if hyp not in input_prop)
+            return Thm(Or(*args), tuple(dict.fromkeys(remain_hyps)))
         else:
             raise VeriTException("subproof", "unexpected result")
 
